@@ -157,6 +157,16 @@ wrapped["time"] = r'''
     }
 '''
 
+wrapped["stdlib"] = r'''
+    use iceoryx2_pal_concurrency_sync::sim;
+    use crate::posix::types::*;
+    pub unsafe fn free(ptr: *mut void) {
+        if !sim::quarantine::push(ptr as usize, 0, 0) {
+            unsafe { real::free(ptr) }
+        }
+    }
+'''
+
 wrapped["sched"] = r'''
     use iceoryx2_pal_concurrency_sync::sim;
     use crate::posix::types::*;
